@@ -295,3 +295,88 @@ Proof.
   rewrite (Permutation_app_comm S (M ++ ys)). rewrite <- app_assoc.
   apply Permutation_app_head. apply Permutation_app_comm.
 Qed.
+
+(* ---------- the notifications of EList.__setitem__ with a slice, and the observer ---------- *)
+Lemma remove_first_in x l :
+  In x l -> exists l1, remove_first Z.eqb x l = Some l1 /\ Permutation l (x :: l1).
+Proof.
+  induction l as [|y ys IH]; intros H; [destruct H|]. simpl.
+  destruct (Z.eqb_spec y x) as [E|N].
+  - subst y. exists ys. split; [reflexivity | apply Permutation_refl].
+  - destruct H as [H|H]; [congruence|]. destruct (IH H) as (l1 & H1 & H2). rewrite H1.
+    exists (y :: l1). split; [reflexivity|].
+    apply perm_trans with (y :: x :: l1); [apply perm_skip; exact H2 | apply perm_swap].
+Qed.
+
+Lemma remove_each_perm xs : forall l r,
+  Permutation l (xs ++ r) -> exists m, remove_each xs l = Some m /\ Permutation m r.
+Proof.
+  induction xs as [|x xs IH]; intros l r H; simpl.
+  - exists l. split; [reflexivity | exact H].
+  - assert (Hin : In x l) by (apply (Permutation_in x (Permutation_sym H)); left; reflexivity).
+    destruct (remove_first_in x l Hin) as (l1 & H1 & H2). rewrite H1.
+    apply IH. apply Permutation_cons_inv with x.
+    apply perm_trans with l; [apply Permutation_sym; exact H2 | exact H].
+Qed.
+
+Lemma setslice_split a b (ys l : list Z) :
+  exists F S, l = F ++ py_getslice a b l ++ S /\ py_setslice a b ys l = F ++ ys ++ S.
+Proof.
+  unfold py_setslice, py_getslice. destruct (slice_bounds (zlen l) a b) as [lo hi] eqn:E.
+  destruct (slice_bounds_range _ _ _ _ _ (zlen_nonneg l) E) as (H0 & H1 & H2).
+  exists (firstn (Z.to_nat lo) l), (skipn (Z.to_nat hi) l). split; [|reflexivity].
+  replace (Z.to_nat (hi - lo)) with (Z.to_nat hi - Z.to_nat lo)%nat by lia.
+  symmetry. apply firstn_skipn_mid. lia.
+Qed.
+
+(* an accepted slice assignment with a NON-EMPTY right-hand side: the observer can apply everything it is told and
+   ends with the new content as a multiset *)
+Theorem elist_setslice_mirrors ok a b ys l l' ns :
+  ys <> [] -> elist_setslice ok a b ys l = Ok (l', ns) ->
+  l' = py_setslice a b ys l /\ exists m, mirror l ns = Some m /\ Permutation m l'.
+Proof.
+  intros Hne H. unfold elist_setslice in H. destruct (forallb ok ys); [|discriminate].
+  injection H as <- <-. split; [reflexivity|].
+  destruct (setslice_split a b ys l) as (F & S & Hl & Hs). rewrite Hs.
+  set (old := py_getslice a b l) in *.
+  assert (Hrem : exists m1, remove_each old l = Some m1 /\ Permutation m1 (F ++ S)).
+  { apply remove_each_perm. rewrite Hl at 1.
+    rewrite app_assoc. rewrite (Permutation_app_comm F old). rewrite <- app_assoc. apply Permutation_refl. }
+  destruct Hrem as (m1 & Hr & Hp).
+  assert (Hadd : forall m0, Permutation m0 (F ++ S) ->
+            exists m, mirror m0 (match ys with [] => [NAddEmpty] | [y] => [NAdd y] | _ => [NAddMany ys] end) = Some m /\
+                      Permutation m (F ++ ys ++ S)).
+  { intros m0 Hm0. exists (m0 ++ ys). split.
+    - destruct ys as [|y [|y2 ys2]]; [congruence | reflexivity | reflexivity].
+    - apply perm_trans with ((F ++ S) ++ ys); [apply Permutation_app_tail; exact Hm0|].
+      rewrite <- app_assoc. apply Permutation_app_head. apply Permutation_app_comm. }
+  destruct old as [|x [|x2 old2]] eqn:Eo.
+  - simpl in Hr. injection Hr as <-. simpl app. apply Hadd. exact Hp.
+  - cbn [remove_each] in Hr. cbn [app mirror mirror1].
+    destruct (remove_first Z.eqb x l) as [l1|]; [|discriminate]. injection Hr as ->.
+    apply Hadd. exact Hp.
+  - cbn [app mirror mirror1]. rewrite Hr. apply Hadd. exact Hp.
+Qed.
+
+(* an EMPTY right-hand side: the last thing the observer is told is an ADD whose payload is the empty list itself -
+   no element; it cannot mirror the call (the known finding of C05 on `c[a:b] = []`) *)
+Theorem elist_setslice_empty_refuted ok a b l l' ns :
+  elist_setslice ok a b [] l = Ok (l', ns) -> mirror l ns = None /\ l' = py_delslice a b l.
+Proof.
+  intros H. unfold elist_setslice in H. simpl forallb in H. injection H as <- <-. split; [|reflexivity].
+  destruct (setslice_split a b [] l) as (F & S & Hl & _).
+  set (old := py_getslice a b l) in *.
+  assert (Hrem : exists m1, remove_each old l = Some m1).
+  { destruct (remove_each_perm old l (F ++ S)) as (m1 & H1 & _); [|exists m1; exact H1].
+    rewrite Hl at 1. rewrite app_assoc. rewrite (Permutation_app_comm F old). rewrite <- app_assoc. apply Permutation_refl. }
+  destruct Hrem as (m1 & Hr).
+  destruct old as [|x [|x2 old2]].
+  - reflexivity.
+  - cbn [remove_each] in Hr. cbn [app mirror mirror1]. destruct (remove_first Z.eqb x l); [reflexivity | discriminate].
+  - cbn [app mirror mirror1]. rewrite Hr. reflexivity.
+Qed.
+
+(* a refused call (one ill-typed value, wherever it stands) reports nothing and, returning no new content, changes nothing *)
+Theorem elist_setslice_refusal ok a b ys l :
+  forallb ok ys = false -> elist_setslice ok a b ys l = Err BadValue.
+Proof. intros H. unfold elist_setslice. rewrite H. reflexivity. Qed.
